@@ -1,0 +1,20 @@
+use crate::seg::tree::SegExpTree;
+use crate::verif::VerifSegCopy;
+
+impl<R, E, V: Copy> SegExpTree<R, E, V> {
+    /// Number of storage places (bucket lists) backing the tree.
+    pub fn verif_places(&self) -> usize {
+        self.verif_chunks().len()
+    }
+
+    /// Every physically stored copy, place by place, in storage order.
+    pub fn verif_copies(&self) -> Vec<VerifSegCopy<V>> {
+        let mut out = Vec::new();
+        for (place, chunk) in self.verif_chunks().iter().enumerate() {
+            for e in chunk.buffer.iter() {
+                out.push(VerifSegCopy { place, mask: e.mask, val: e.val });
+            }
+        }
+        out
+    }
+}
